@@ -578,7 +578,7 @@ class ProcessLauncher:
         :param init_kwargs: keyword arguments to the process constructor
         :return: the pid of the created process or the outputs (if nowait=False)
         """
-        if persist and not self._persister:
+        if persist and self._persister is None:
             raise communications.TaskRejected('Cannot persist process, no persister')
 
         if init_args is None:
@@ -611,7 +611,7 @@ class ProcessLauncher:
         :param nowait: if True don't wait for the process to complete
         :param tag: the checkpoint tag to continue from
         """
-        if not self._persister:
+        if self._persister is None:
             LOGGER.warning('rejecting task: cannot continue process<%d> because no persister is available', pid)
             raise communications.TaskRejected('Cannot continue process, no persister')
 
@@ -646,7 +646,7 @@ class ProcessLauncher:
         :param init_kwargs: keyword arguments to the process constructor
         :return: the pid of the created process
         """
-        if persist and not self._persister:
+        if persist and self._persister is None:
             raise communications.TaskRejected('Cannot persist process, no persister')
 
         if init_args is None:
